@@ -30,7 +30,7 @@ LOAD_SAMPLE = 1000     # load(): tabulator sample_size default
 
 def model(rep, t):
     wd = tlc.workdir('c06')
-    kinds = ['src', 'map', 'filter', 'del', 'obs', 'fin']
+    kinds = ['src', 'map', 'filter', 'del', 'obs', 'fin', 'cat']
     for sample, ahead in ((1, 3), (3, 1), (2, 2)):
         cfg = tlc.write_cfg(os.path.join(wd, 'mc%d%d.cfg' % (sample, ahead)), constants={
             'MaxLen': 3 if t == 'quick' else 4, 'Sample': sample, 'Ahead': ahead, 'SwallowCast': 'FALSE',
